@@ -42,7 +42,8 @@ DIGEST_SAMPLE = 192
 def _chunk(args):
     prop, base_seed, start, end, want_digests, want_samples = args
     sim = load_sim(prop)
-    res = {"runs": 0, "variants": 0, "steps": 0, "sim_seconds": 0.0, "inconclusive": 0,
+    findings = [e for e in known.load() if e.get("status") == "known" and e.get("property") == prop]
+    res = {"known_raw": Counter(), "runs": 0, "variants": 0, "steps": 0, "sim_seconds": 0.0, "inconclusive": 0,
            "probes": Counter(), "faults": Counter(), "states": set(), "transitions": set(),
            "nontrivial": set(), "digests": [], "failures": [], "samples": [], "executions": 0,
            "n_fail": 0}
@@ -86,14 +87,17 @@ def _chunk(args):
                 res["variants"] += 1
             if viol is not None:
                 res["n_fail"] += 1
-                if len(res["failures"]) < MAX_FAIL_PER_CHUNK:
+                entry = known.match(prop, viol.clause, sim.signature(tr, viol), findings) if findings else None
+                if entry is not None:
+                    res["known_raw"][entry.get("id", entry.get("what", "?"))] += 1
+                elif len(res["failures"]) < MAX_FAIL_PER_CHUNK:
                     res["failures"].append({"run": idx, "variant": vi, "clause": viol.clause,
                                             "message": viol.message, "trace": tr})
     return res
 
 
 def _merge(results):
-    tot = {"runs": 0, "variants": 0, "steps": 0, "sim_seconds": 0.0, "inconclusive": 0,
+    tot = {"known_raw": Counter(), "runs": 0, "variants": 0, "steps": 0, "sim_seconds": 0.0, "inconclusive": 0,
            "probes": Counter(), "faults": Counter(), "states": set(), "transitions": set(),
            "nontrivial": set(), "digests": [], "failures": [], "samples": [], "executions": 0,
            "n_fail": 0}
@@ -104,6 +108,7 @@ def _merge(results):
             tot[k] += r[k]
         tot["probes"].update(r["probes"])
         tot["faults"].update(r["faults"])
+        tot["known_raw"].update(r["known_raw"])
         for k in ("states", "transitions", "nontrivial"):
             tot[k] |= r[k]
         tot["digests"].extend(r["digests"])
@@ -280,6 +285,31 @@ def run_check(prop, tier):
     violations, known_hits, lines = report_failures(sim, tot["failures"], cfg.get("min_wall", 60.0))
     for ln in lines:
         print(ln)
+    # known findings: directed replay of the committed failing trace of every listed finding, plus batch matches
+    reported = set(e.get("id", e.get("what")) for e, _ in known_hits)
+    for e in known.load():
+        if e.get("status") != "known" or e.get("property") != prop:
+            continue
+        eid = e.get("id", e.get("what"))
+        n_batch = tot["known_raw"].get(eid, 0)
+        reproduced = None
+        if e.get("replay"):
+            rp = os.path.join(VERIF_ROOT, e["replay"])
+            try:
+                run, viol = sim.execute(read_replay(rp)["trace"], collect=False)
+                reproduced = (viol is not None and viol.clause == e.get("clause")
+                              and known.match(prop, viol.clause, sim.signature(read_replay(rp)["trace"], viol), [e]) is not None)
+            except Inconclusive:
+                reproduced = False
+        if eid in reported:
+            continue
+        if reproduced or n_batch:
+            print("KNOWN-FINDING: property=%s %s [clause %s; directed replay %s; %d matching executions in this batch]" % (
+                prop, e.get("what", ""), e.get("clause"),
+                {True: "reproduces", False: "does NOT reproduce", None: "n/a"}[reproduced], n_batch))
+            known_hits.append((e, e.get("replay")))
+        else:
+            print("NOTE known finding no longer reproduces: property=%s %s" % (prop, e.get("what", "")))
     wall = time.time() - t0
     expected = list(getattr(sim, "EXPECTED_PROBES", []))
     stuck = [p for p in expected if not tot["probes"].get(p)]
@@ -305,6 +335,7 @@ def run_check(prop, tier):
         "stub_components": sim.STUB,
         "determinism_selftest": det,
         "failing_executions": tot["n_fail"],
+        "known_finding_executions": dict(tot["known_raw"]),
         "known_findings_matched": [e.get("what") for e, _ in known_hits],
         "warmup_s": round(t_warm, 2),
         "exhaustive": False,
@@ -319,6 +350,8 @@ def run_check(prop, tier):
         print("WARNING probes stuck at zero: %s" % ", ".join(stuck))
     if tot["runs"] == 0:
         raise HarnessError("no run completed")
+    if len(tot["nontrivial"]) < 2:
+        raise HarnessError("vacuous batch: fewer than two distinct non-trivial executions")
     if violations:
         return 1
     print("OK property=%s held on everything explored%s" % (
